@@ -245,7 +245,7 @@ func VerifC17Flags() {
 		verifnd.Assume(unk != flagName(i) && unk != junkName(i))
 	}
 	list[10] = unk
-	sh := stepShape{mods: vModVikja | vModOdal, preset: verifnd.Choice(2)}
+	sh := stepShape{mods: vModVikja | vModOdal, preset: verifnd.Choice(2), noFree: true}
 	sh.par = genStepParams(sh)
 	shF := sh
 	shF.flags = list
